@@ -275,6 +275,9 @@ def array_count_fold_rule(repo: Repo, rep: Report, rid: str) -> None:
 
 
 def run(repo: Repo, rep: Report, tier: str) -> None:
+    from .compiled import compiled_fold_rule
+
+    compiled_fold_rule(repo, rep, "C07.R14", tier)
     clamp_rule(repo, rep, "C07.R1")
     context_rule(repo, rep, "C07.R2")
     terminator_rule(repo, rep, "C07.R3")
